@@ -39,12 +39,21 @@ def field_types(repo, ci):
             if not sn:
                 continue
             for n in walk_no_nested(m):
-                if isinstance(n, ast.Assign) and isinstance(n.value, ast.Call):
-                    for t in n.targets:
-                        if isinstance(t, ast.Attribute) and isinstance(t.value, ast.Name) \
-                                and t.value.id == sn:
-                            for k in _call_result_classes(repo, n.value, c, m):
-                                out.setdefault(t.attr, set()).add(k)
+                if isinstance(n, ast.Assign):
+                    # value alternatives: f(), `a if c else f()`, `a or f()`
+                    alts = [n.value]
+                    if isinstance(n.value, ast.IfExp):
+                        alts = [n.value.body, n.value.orelse]
+                    elif isinstance(n.value, ast.BoolOp):
+                        alts = list(n.value.values)
+                    for v in alts:
+                        if not isinstance(v, ast.Call):
+                            continue
+                        for t in n.targets:
+                            if isinstance(t, ast.Attribute) and isinstance(t.value, ast.Name) \
+                                    and t.value.id == sn:
+                                for k in _call_result_classes(repo, v, c, m):
+                                    out.setdefault(t.attr, set()).add(k)
     return out
 
 
@@ -64,6 +73,13 @@ def _call_result_classes(repo, call, ci, fn, depth=0):
                 if isinstance(r, ast.Return) and isinstance(r.value, ast.Call):
                     out.extend(_call_result_classes(repo, r.value, owner_class(repo, meth) or recv,
                                                     meth, depth + 1))
+                elif isinstance(r, ast.Return) and isinstance(r.value, ast.Name):
+                    # `x = Class(...); ...; return x`
+                    for a in walk_no_nested(meth):
+                        if isinstance(a, ast.Assign) and isinstance(a.value, ast.Call) and any(
+                                isinstance(t, ast.Name) and t.id == r.value.id for t in a.targets):
+                            out.extend(_call_result_classes(repo, a.value, owner_class(repo, meth) or recv,
+                                                            meth, depth + 1))
         return out
     return []
 
